@@ -49,4 +49,26 @@ def beBytes : Nat → Nat → Bytes
   | 0, _ => []
   | k + 1, n => beBytes k (n / 256) ++ [n % 256]
 
+/-- A socket address: family, ip octets (4 or 16), port. (`SocketAddr` without flowinfo/scope id.) -/
+structure Addr where
+  v6 : Bool
+  ip : Bytes
+  port : Nat
+  deriving DecidableEq, Repr
+
+/-- text form used by the line protocol: `v4:0a000001:6881` -/
+def Addr.toStr (a : Addr) : String :=
+  (if a.v6 then "v6:" else "v4:") ++ hexOfBytes a.ip ++ ":" ++ toString a.port
+
+def Addr.parse? (s : String) : Option Addr :=
+  match s.splitOn ":" with
+  | [fam, ip, port] =>
+    match bytesOfHex? ip, port.toNat? with
+    | some ip, some port =>
+      if fam = "v4" ∧ ip.length = 4 then some ⟨false, ip, port⟩
+      else if fam = "v6" ∧ ip.length = 16 then some ⟨true, ip, port⟩
+      else none
+    | _, _ => none
+  | _ => none
+
 end Btdht
